@@ -139,6 +139,8 @@ func offendingLine(text, diag string) string {
 	return ""
 }
 
+var reLocalTok = regexp.MustCompile(`%[A-Za-z_][A-Za-z0-9_.]*`)
+var reUndefType = regexp.MustCompile(`use of undefined type named '([^']+)'`)
 var reDefType = regexp.MustCompile(`'([%@][^']+)' defined with type '([^']+)' but expected '([^']+)'`)
 var reDigits = regexp.MustCompile(`\b\d+ x |\(\d+\)`)
 
@@ -199,6 +201,16 @@ func evaluate(tabs *schema.Tables, p *schema.Prog, full bool) (o outcome) {
 		return
 	}
 	o.specText = schema.RenderProg(tabs, p)
+	// every %identifier of the printed module must be one the program introduces (the template
+	// rendering has them all): a foreign one is state leaking in from a program built earlier
+	for _, tok := range reLocalTok.FindAllString(o.libText, -1) {
+		if !strings.Contains(o.specText, tok) {
+			o.disagree = true
+			o.sig = "C03|isolation|identifier-of-another-program-in-the-printed-module"
+			o.what = fmt.Sprintf("the printed module of program %s mentions %s, which the program never introduces (a constructor call of another program built earlier in the process changed shared state, e.g. NewTypeDef renaming a shared type)\n--- printed:\n%s--- constructed:\n%s", p.ID, tok, o.libText, o.specText)
+			return
+		}
+	}
 	if full {
 		canonSpec, ok, diag := llvmoracle.Canon(o.specText)
 		if !ok {
@@ -214,6 +226,12 @@ func evaluate(tabs *schema.Tables, p *schema.Prog, full bool) (o outcome) {
 				// the library computed (and cached) a wrong result type for the defining instruction
 				o.sig = "C03|result-type|" + def + "|LLVM: " + from + ", library: " + to
 				o.what = fmt.Sprintf("the library types the result of %s as %s where LLVM derives %s, so a later use does not verify: %s\n--- printed:\n%s", def, to, from, mbt.Truncate(diag, 300), o.libText)
+				return
+			}
+			if m := reUndefType.FindStringSubmatch(diag); m != nil && !strings.Contains(o.specText, "%"+m[1]+" = type") {
+				// the printed module uses a type name that this program never defined
+				o.sig = "C03|isolation|type-name-defined-by-another-program-leaks"
+				o.what = fmt.Sprintf("program %s never defines %%%s, yet its printed module uses it (a type definition of another module built earlier in the process renamed a shared type): %s\n--- printed:\n%s", p.ID, m[1], mbt.Truncate(diag, 200), o.libText)
 				return
 			}
 			o.sig = "C03|llvm-as|" + subject(p, line) + "|rejected|" + normDiag(diag)
@@ -279,6 +297,19 @@ func evaluate(tabs *schema.Tables, p *schema.Prog, full bool) (o outcome) {
 		}
 	}
 	return
+}
+
+type canary struct {
+	p     *schema.Prog
+	first string
+}
+
+// printAlone builds the program and returns its text ("panic: ..." if building or printing panics).
+func printAlone(p *schema.Prog) (text string) {
+	if msg, pn := mbt.Guard(func() { text = schema.BuildProg(p).M.String() }); pn {
+		return "panic: " + msg
+	}
+	return text
 }
 
 func kindsOf(p *schema.Prog) []string {
@@ -420,8 +451,16 @@ func Run(tier, replay string) {
 	on := func(s string) bool { return stages == "" || strings.Contains(","+stages+",", ","+s+",") }
 
 	// coverage family: exhaustive
+	var canaries []canary
 	if on("cover") {
 		cover := tlcProgs(rep, mbt.TLCOpts{Cfg: "BuildCover.cfg"})
+		// isolation law, first pass: a sample of programs is built and printed before anything else
+		// has been constructed in this process
+		for i := range cover {
+			if i%20 == 0 || cover[i].Fam == "module" {
+				canaries = append(canaries, canary{p: &cover[i], first: printAlone(&cover[i])})
+			}
+		}
 		runAll(rep, &tabs, cover, all, st)
 	}
 
@@ -456,6 +495,22 @@ func Run(tier, replay string) {
 		mix := tlcProgs(rep, mbt.TLCOpts{Cfg: "BuildMix.cfg", Simulate: fmt.Sprintf("num=%d", nMix), Depth: 7})
 		runAll(rep, &tabs, mix, all, st)
 	}
+
+	// isolation law, second pass: the same programs built again after every other program of the run;
+	// the text of a program must not depend on what was constructed before it in the same process
+	for _, c := range canaries {
+		again := printAlone(c.p)
+		rep.Count("isolation:"+c.p.ID, true)
+		if again != c.first {
+			x, y := firstDiff(c.first, again)
+			st.disagree++
+			rep.Fail(mbt.Failure{Signature: "C03|isolation|" + c.p.Fam + "|text-depends-on-programs-built-earlier-in-the-process",
+				What: fmt.Sprintf("program %s printed %q when built first in the process and prints %q when built again after the other %d programs of the run: some constructor mutated shared state",
+					c.p.ID, x, y, st.programs),
+				Case: c.p})
+		}
+	}
+	rep.Extra["isolation_law_programs_built_twice"] = len(canaries)
 
 	// a discarded program is a specification error; too many make the run worthless
 	nd := 0
